@@ -15,6 +15,7 @@ package keys
 //@ emits: decls
 //@ serves: keys len=1 typ=typs[0]
 //@ o-sig: (m $typ) (r []$key(typ))
+//@ o-result-fresh
 //@ o-pure
 //@ o-ensures: [every-key] forall k val :: (k in m) ==> elemOf(k, r)
 //@ o-ensures: [only-keys] forall j int :: 0 <= j && j < len(r) ==> r[j] in m
